@@ -472,3 +472,147 @@ def gen_case(rng, size=None):
                 ops.append((r, "next", i))
         ops.append(("tick",))
     return ops
+
+
+# ---- implementation-side monitors: the statement of C16 evaluated on the real outputs -----------
+def is_term_kind(kind):
+    return kind in TERM
+
+
+def spec_stream(log_kinds, k, incl):
+    """log_kinds: [(seq, pid, kind)] of the final log. The stream C16 demands for cursor k:
+    events numbered above k, in order, ending right after the first terminal one; the HTTP wrapper
+    additionally drops internal events unless incl. Returns (events, closed)."""
+    out, closed = [], False
+    for seq, pid, kind in log_kinds:
+        if seq > k:
+            if incl or kind != "internal":
+                out.append((seq, pid))
+            if is_term_kind(kind):
+                closed = True
+                break
+    return out, closed
+
+
+def monitor_case(ops, res):
+    """returns [(finding_key, description)] for one executed case (one backend)."""
+    fails = []
+    appended = {r: [] for r in RUNS}      # (pid, kind) in publication order
+    sub_cursor = {r: [] for r in RUNS}    # resolved cursor of each subscriber, in creation order
+    for op in ops:
+        if op[0] == "tick":
+            continue
+        r, kind = op[0], op[1]
+        if kind == "append":
+            appended[r].append((op[2][1], op[2][0]))
+        elif kind == "sub":
+            sub_cursor[r].append((op[2], True))
+        elif kind == "resolve":
+            after, incl, handler = op[2], op[3], op[4]
+            n = len(appended[r])
+            k = (n - 1) if after is None else after
+            nothing_left = not any(i > k for i in range(n))
+            over = handler == "completed" or (n > 0 and is_term_kind(appended[r][-1][1]))
+            expect_stream = handler in ("running", "completed") and not (nothing_left and over)
+            sub_cursor[r].append(("resolve", k, incl, expect_stream, handler))
+    for r in RUNS:
+        log = res.logs[r]
+        # (1) numbering: 0,1,2,... in publication order
+        if [s for s, _, _ in log] != list(range(len(appended[r]))):
+            fails.append(("C16/numbering", "run %s: stored sequence numbers %r for %d appended events"
+                          % (r, [s for s, _, _ in log], len(appended[r]))))
+            continue
+        if [p for _, p, _ in log] != [p for p, _ in appended[r]]:
+            fails.append(("C16/numbering", "run %s: stored order %r differs from publication order %r"
+                          % (r, [p for _, p, _ in log], [p for p, _ in appended[r]])))
+            continue
+        kinds = [(i, p, kd) for i, (p, kd) in enumerate(appended[r])]
+        # (2) every subscriber, after the drain phase, has exactly the specified stream
+        want = [c for c in sub_cursor[r] if not (c[0] == "resolve" and not c[3])]
+        unexpected = [c for c in sub_cursor[r] if c[0] == "resolve"]
+        got_subs = res.subs[r]
+        if len(got_subs) != len(want):
+            fails.append(("C16/resolve", "run %s: %d streams were opened, %d expected from the handler states "
+                          "and cursors %r" % (r, len(got_subs), len(want), unexpected)))
+            continue
+        for i, (c, (spec, out, finished)) in enumerate(zip(want, got_subs)):
+            k, incl = (c[1], c[2]) if c[0] == "resolve" else (c[0], True)
+            exp, closed = spec_stream(kinds, k, incl)
+            got = [(s, p) for s, p, _ in out]
+            if got != exp:
+                mech = "cursor-ahead" if (got[:len(got) - len(exp)] and got[len(got) - len(exp):] == exp) else "stream"
+                fails.append(("C16/subscribe-%s" % mech,
+                              "run %s subscriber %d %r: yielded %r, the events above %d %sare %r"
+                              % (r, i, spec, got, k, "" if incl else "(internal ones filtered) ", exp)))
+            elif finished != closed:
+                fails.append(("C16/subscribe-close", "run %s subscriber %d %r: closed=%r but the log %s a terminal "
+                              "event above %d" % (r, i, spec, finished, "has" if closed else "has not", k)))
+        # (3) resume: for every pair of bare subscriptions (k0 <= k): seen<=k ++ after(k) == all
+        bare = [(c[0], [(s, p) for s, p, _ in out]) for c, (spec, out, _) in zip(want, got_subs)
+                if c[0] != "resolve" and spec[0] == "store"]
+        for k0, o0 in bare:
+            for k1, o1 in bare:
+                if k0 <= k1:
+                    seen = [(s, p) for s, p in o0 if s <= k1]
+                    if any(is_term_kind(appended[r][s][1]) for s, _ in seen):
+                        continue
+                    if seen + o1 != o0:
+                        fails.append(("C16/resume", "run %s: stream after %d cut at %d = %r, reconnecting after %d "
+                                      "gives %r, uninterrupted stream is %r" % (r, k0, k1, seen, k1, o1, o0)))
+    for a in res.anomalies:
+        fails.append(("C16/anomaly", a))
+    return fails
+
+
+def case_stats(ops):
+    """coverage counters of one generated case"""
+    st = dict(appends=0, subs=0, base_subs=0, resolves=0, nexts=0, ticks=0, queries=0, limited_queries=0,
+              cursor_ahead=0, cursor_now=0, cursor_negative=0, terminal_mid_log=0, events_after_terminal=0,
+              resolve_now=0, internal_events=0, filtered_streams=0, subclass_terminals=0,
+              late_events_below_cursor=0)
+    n = {r: 0 for r in RUNS}
+    term = {r: False for r in RUNS}
+    ahead = {r: [] for r in RUNS}
+    for op in ops:
+        if op[0] == "tick":
+            st["ticks"] += 1
+            continue
+        r, kind = op[0], op[1]
+        if kind == "append":
+            st["appends"] += 1
+            if term[r]:
+                st["events_after_terminal"] += 1
+            if op[2][0] in TERM:
+                term[r] = True
+                if op[2][0] != "stop":
+                    st["subclass_terminals"] += 1
+            if op[2][0] == "internal":
+                st["internal_events"] += 1
+            st["late_events_below_cursor"] += sum(1 for k in ahead[r] if n[r] <= k)
+            n[r] += 1
+        elif kind in ("sub", "resolve"):
+            k = op[2]
+            if kind == "sub":
+                st["subs"] += 1
+                st["base_subs"] += op[3] == "base"
+            else:
+                st["resolves"] += 1
+                st["resolve_now"] += k is None
+                st["filtered_streams"] += not op[3]
+            if k is not None:
+                if k >= n[r]:
+                    st["cursor_ahead"] += 1
+                    ahead[r].append(k)
+                elif k == n[r] - 1:
+                    st["cursor_now"] += 1
+                elif k < -1:
+                    st["cursor_negative"] += 1
+        elif kind == "next":
+            st["nexts"] += 1
+        elif kind == "query":
+            st["queries"] += 1
+            st["limited_queries"] += op[3] is not None
+    for r in RUNS:
+        if term[r]:
+            st["terminal_mid_log"] += 1
+    return st
